@@ -1,10 +1,14 @@
 import CJ.Drv.Loop
 import CJ.Drv.Codec
 import CJ.Drv.Ingress
+import CJ.Drv.IngressMsg
 /-! Driver for C11: the byte-level parsers (codec model) and the entry-point models. -/
 open CJ.Drv
 
 def main : IO Unit := runDriver fun
   | "codec" :: args => Codec.handle args
+  | "ingress" :: "c2sw" :: args => IngressMsg.handle ("c2sw" :: args)
+  | "ingress" :: "bdreq" :: args => IngressMsg.handle ("bdreq" :: args)
+  | "ingress" :: "zmq" :: args => IngressMsg.handle ("zmq" :: args)
   | "ingress" :: args => Ingress.handle args
   | _ => none
